@@ -48,6 +48,7 @@ import (
 	vdrapi "github.com/hyperledger/aries-framework-go/pkg/framework/aries/api/vdr"
 	mockprovider "github.com/hyperledger/aries-framework-go/pkg/mock/provider"
 	mockvdr "github.com/hyperledger/aries-framework-go/pkg/mock/vdr"
+	spistorage "github.com/hyperledger/aries-framework-go/spi/storage"
 )
 
 var c14Profiles = map[string]string{
@@ -122,6 +123,8 @@ type c14Agent struct {
 	disp   *outbound.Dispatcher
 	out    *c14Outbound
 	med    *mediator.Service
+	med2   *mediator.Service
+	failPut bool
 	pickup *messagepickup.Service
 }
 
@@ -230,7 +233,8 @@ func (w *c14World) wire(a *c14Agent, withMediator bool) error {
 		return err
 	}
 	a.pkgr = pk
-	store, pstore := mem.NewProvider(), mem.NewProvider()
+	var store spistorage.Provider = &c14FaultProv{Provider: mem.NewProvider(), failPut: &a.failPut}
+	pstore := mem.NewProvider()
 	a.disp, err = outbound.NewOutbound(&c14OutProv{Provider: &mockprovider.Provider{PackagerValue: pk, VDRegistryValue: reg,
 		KMSValue: a.p.kms, StorageProviderValue: store, ProtocolStateStorageProviderValue: pstore,
 		MediaTypeProfilesValue: []string{w.mtp}}, tr: []transport.OutboundTransport{&c14Transport{w.bus}}})
@@ -250,7 +254,42 @@ func (w *c14World) wire(a *c14Agent, withMediator bool) error {
 		OutboundDispatcherValue: a.out, KMSValue: a.p.kms, VDRegistryValue: reg,
 		ServiceMap:             map[string]interface{}{messagepickup.MessagePickup: a.pickup},
 		MediaTypeProfilesValue: []string{w.mtp}, ServiceEndpointValue: a.uri})
+	if err != nil {
+		return err
+	}
+	// a second instance of the mediator service over the SAME stores (a second process of the mediator, or the service
+	// after a restart): what one instance registered is what the other one routes by
+	a.med2, err = mediator.New(&mockprovider.Provider{StorageProviderValue: store, ProtocolStateStorageProviderValue: pstore,
+		OutboundDispatcherValue: a.out, KMSValue: a.p.kms, VDRegistryValue: reg,
+		ServiceMap:             map[string]interface{}{messagepickup.MessagePickup: a.pickup},
+		MediaTypeProfilesValue: []string{w.mtp}, ServiceEndpointValue: a.uri})
 	return err
+}
+
+// the mediators' storage: writes can be made to fail (a storage fault exactly during a keylist update)
+type c14FaultProv struct {
+	spistorage.Provider
+	failPut *bool
+}
+
+func (p *c14FaultProv) OpenStore(name string) (spistorage.Store, error) {
+	st, err := p.Provider.OpenStore(name)
+	if err != nil {
+		return nil, err
+	}
+	return &c14FaultStore{Store: st, failPut: p.failPut}, nil
+}
+
+type c14FaultStore struct {
+	spistorage.Store
+	failPut *bool
+}
+
+func (s *c14FaultStore) Put(k string, v []byte, tags ...spistorage.Tag) error {
+	if *s.failPut {
+		return errors.New("storage fault")
+	}
+	return s.Store.Put(k, v, tags...)
 }
 
 func c14Msg(m interface{}) service.DIDCommMsgMap {
@@ -264,8 +303,12 @@ func c14Msg(m interface{}) service.DIDCommMsgMap {
 
 // keylist update of `client` for `key` at mediator `m`; returns the result string of the response
 func (w *c14World) keylist(m *c14Agent, client *c14Agent, key, action string, seq int) string {
+	return w.keylistVia(m.med, m, client, key, action, seq)
+}
+
+func (w *c14World) keylistVia(med *mediator.Service, m *c14Agent, client *c14Agent, key, action string, seq int) string {
 	m.out.resp = nil
-	err := m.med.VerifHandleKeylistUpdate(c14Msg(map[string]interface{}{
+	err := med.VerifHandleKeylistUpdate(c14Msg(map[string]interface{}{
 		"@id": fmt.Sprintf("ku%d", seq), "@type": mediator.KeylistUpdateMsgType,
 		"updates": []map[string]string{{"recipient_key": key, "action": action}},
 	}), m.did, client.cdid())
@@ -488,6 +531,14 @@ func c14Run(input string) string {
 				action = "remove"
 			}
 			outs = append(outs, w.keylist(M1, w.agents[f[1]], keys[f[2]].regKey, action, seq))
+		case f[0] == "addf" && len(f) == 3 && w.agents[f[1]] != nil && keys[f[2]] != nil:
+			// the registration meets a storage fault: the client is told so, and nothing about the route changes
+			M1.failPut = true
+			outs = append(outs, w.keylist(M1, w.agents[f[1]], keys[f[2]].regKey, "add", seq))
+			M1.failPut = false
+		case f[0] == "addb" && len(f) == 3 && w.agents[f[1]] != nil && keys[f[2]] != nil:
+			// the registration arrives at the mediator's second instance
+			outs = append(outs, w.keylistVia(M1.med2, M1, w.agents[f[1]], keys[f[2]].regKey, "add", seq))
 		case (f[0] == "off" || f[0] == "on") && len(f) == 2 && w.agents[f[1]] != nil:
 			w.bus.offline[w.agents[f[1]].uri] = f[0] == "off"
 			outs = append(outs, "ok")
@@ -667,8 +718,10 @@ func c14Gen(r *Rng, tier string) []string {
 			c := r.Pick([]string{"c0", "c1", "c2"})
 			key := r.Pick([]string{"k0", "k0", "k1", "k2", "k3"})
 			switch x := r.N(20); {
-			case x < 5:
+			case x < 4:
 				ops = append(ops, "add "+c+" "+key)
+			case x < 5:
+				ops = append(ops, r.Pick([]string{"addf", "addb", "addb"})+" "+c+" "+key)
 			case x < 6:
 				ops = append(ops, "rem "+c+" "+key)
 			case x < 8:
